@@ -4,7 +4,8 @@
   For every modelled operation `op`, `opCost : inputs → Nat` is the number of array cells the algorithm
   *in the code* writes: the sum of the lengths of all intermediate arrays it allocates (each list cell of
   the model is one cell), plus — for the in-place kernels — the cells of scratch arrays that are re-written
-  (`next_[:] = -1` once per row in `_dot_csr_csr`).  The transcription is next to each definition.
+  (`next_[temp] = -1; sums[temp] = 0` once per touched column in `_dot_csr_csr`).  The transcription is next to
+  each definition.
   Sizes are taken from the model itself (`nnz` of the model's result, lengths of the model's lists), so the
   cost of an input is computed by running the model on it — also on shapes whose dense form cannot exist.
 
@@ -148,10 +149,15 @@ def tocoo (g : GCXS α) : Nat :=
   n + 2 * n + sort 2 n + sumDup 2 n + (n + d * n) + (d * n + sort d n)
 
 /-- `_dot_csr_csr` (and `_dot_coo_coo`, same structure) for an `nRow × nCol` result with `nnzOut` stored elements,
-`work` = number of (a-entry, b-entry) products: `mask = np.full(n_col)` in the count pass, `indptr` (nRow+1),
-`indices`/`data` (2·nnzOut), `next_`/`sums` (2·nCol), **`next_[:] = -1` once per row (nRow · nCol)**, the products. -/
+`work` = number of (a-entry, b-entry) products: `mask = np.full(n_col)` in the count pass (nCol), `indptr` (nRow+1),
+`indices`/`data` (2·nnzOut), `next_ = np.full(n_col)`/`sums = np.zeros(n_col)` once, before the row loop (2·nCol), per
+product `sums[k] += …` and at most one `next_[k] = head` (2·work), the emission loop, which restores
+`next_[temp] = -1; sums[temp] = 0` for every column the row touched — at most one per product (2·work) — and the sort
+of each emitted row (`argsort`, `indices[…][order]`, `data[…][order]`: 3·nnzOut; `_dot_coo_coo` writes its third
+coordinate row instead and does not sort).  Nothing is written per (row, column) pair: the scratch arrays are
+restored entry by entry, never wholesale. -/
 def dotCsrCsr (nRow nCol nnzOut work : Nat) : Nat :=
-  nCol + (nRow + 1) + 2 * nnzOut + 2 * nCol + nRow * nCol + 2 * work
+  nCol + (nRow + 1) + 2 * nnzOut + 2 * nCol + 2 * work + 2 * work + 3 * nnzOut
 
 end Cost
 end SparseV
